@@ -135,6 +135,16 @@ def check(case):
         mag = float(np.max(np.abs(fx))) + float(np.max(np.abs(g)) * np.max(np.abs(x))) + \
             float(np.max(np.abs(H)) * np.max(np.abs(x)) ** 2) + 1.0
         tol = 64 * np.finfo(float).eps * mag / h[None, :] + 1e-9 * np.abs(expect) + 1e-12
+    if case.get('colored'):
+        # dynamic coloring detects the sparsity numerically at the evaluation point (forward differences, noise ~1e-10
+        # relative): a structurally nonzero entry that vanishes there (g + H x = 0 because some x is exactly 0) is taken
+        # for a structural zero, its column may share a color with a column of the same row, and the colored result then
+        # carries the cross term h*H_ij - documented behaviour of dynamic coloring, not an approximation error
+        structural = (g != 0) | np.any(H != 0, axis=2)
+        if np.any(structural & (np.abs(exact) <= 1e-6 * max(1.0, float(np.max(np.abs(exact)))))):
+            res.discard = 'sparsity-not-detectable-at-this-point'
+            res.classes = ['colored', 'sparsity_not_detectable']
+            return res
     f13 = known_f13(case)
     pre = 'F13|' if f13 else ''
     if known_f20(case):
